@@ -32,8 +32,8 @@ TEXT['C19'] = ("Panic-freedom of the binary decoders under contract, for arbitra
          "Trusted: byte-I/O stand-ins, String::from_utf8. Not decided: JSON/CSV/VPL text parsers, vector-tile layer decoding, container opening around I/O.")
 TEXT['C11'] = ("Claimed for the byte-level core only: Verus proves the real varint/zigzag/PBF-key/packed/length-prefixed readers and writers against the protobuf wire-format rules for all u64/i64 (encoder = LEB128 specification, decoder = 7-bit-group rule with continuation bits, zigzag bijection by bit-vector proof), and the key/value tables of a layer: push appends exactly one entry per record at the next position (positional fidelity, duplicates included), add de-duplicates to the first position, get/find are total.",
          "The operation itself (Runner::run): layers whose name is not the configured one are handed on exactly as decoded, in place and in order; the per-feature step of filter_map_properties reports invalid tag ids as an error; feature, layer and tile encoders equal the MVT 2.1 wire layout; layer and tile decoders are total. Trusted: byte-I/O stand-ins, HashMap via vstd's specification (obeys_key_model), T::clone returns an equal value, BTreeMap stand-in. Not decided: what the property callback computes (CSV join), value typing, the composition from_blob(to_blob(t)) = t.")
-TEXT['C10'] = ("Claimed for the re-indexing core and the lookup of the operation: Verus proves that VectorTileLayer::add_from_layer appends every feature of the added layer in order with its id, geometry type and geometry bytes, that the property set its new tag ids denote in the receiving layer's tables equals the set the old ids denoted in the source layer's tables (PropertyManager::encode_tag_ids / decode_tag_ids against the MVT 2.1 section 4.4 reading of tag ids), and that the features already present keep theirs (tables only grow at the end); and that from_vectortiles_merged::get_tile_data yields a tile exactly when some source has one, merging the source tiles decoded with their source's compression in source order, declared uncompressed.",
-         "Trusted: BTreeMap stand-in (finite map; into_iter yields every pair once), derive(Clone) field-wise, A-merge-1 (tables have fewer than 2^30 entries), merge_tiles as a function of the blob list, source contract, codec axioms. Not decided: the HashMap-by-name loop of merge_tiles, the stream path, VectorTile to_blob/from_blob composition.")
+TEXT['C10'] = ("Claimed for the re-indexing core and the lookup of the operation: Verus proves that VectorTileLayer::add_from_layer appends every feature of the added layer in order with its id, geometry type and geometry bytes, that the property set its new tag ids denote in the receiving layer's tables equals the set the old ids denoted in the source layer's tables (PropertyManager::encode_tag_ids / decode_tag_ids against the MVT 2.1 section 4.4 reading of tag ids), and that the features already present keep theirs (tables only grow at the end); that merge_tiles produces one layer per distinct layer name, each the first source layer of that name with every later one added in source order; and that from_vectortiles_merged::get_tile_data yields a tile exactly when some source has one, merging the source tiles decoded with their source's compression in source order, declared uncompressed.",
+         "Trusted: BTreeMap stand-in (finite map; into_iter yields every pair once), derive(Clone) field-wise, A-merge-1 (tables have fewer than 2^30 entries), source contract, codec axioms. Not decided: the order of the layers in the output, the stream path, VectorTile to_blob/from_blob composition.")
 NA = {
  'C07': 'std::path / OS path resolution semantics decide the property; no contract on repository code can express it (Kani probe through real std::path timed out) — DESIGN §5',
  'C12': 'quantifies over crash points of an I/O sequence inside async closures; no function contract reaches it — DESIGN §5',
